@@ -153,6 +153,12 @@ func Bytes(data any, args ...any) []byte {
 	if wr == nil {
 		wr, _ = writerPool.Get().(*Writer)
 		defer writerPool.Put(wr)
+		// The pooled writer's buffer is reused by the next caller so return a copy.
+		b := wr.MustSEN(data)
+		out := make([]byte, len(b))
+		copy(out, b)
+
+		return out
 	}
 	return wr.MustSEN(data)
 }
